@@ -72,7 +72,7 @@ def _job(args):
                    f"{type(e).__name__}: {e}\n{traceback.format_exc(limit=8)}").to_json()], time.time() - t0
 
 
-LEMMA_FILES = {"C02": ["LinearODE.lean", "FlowOfEuler.lean"], "C04": ["LinearODE.lean", "FlowOfEuler.lean"], "C05": ["LinearODE.lean"], "C08": ["LinearODE.lean", "FlowOfEuler.lean"], "C06": ["Taylor.lean", "Normalize.lean"], "C12": ["ErrDyn.lean"],
+LEMMA_FILES = {"C02": ["LinearODE.lean", "FlowOfEuler.lean"], "C04": ["LinearODE.lean", "FlowOfEuler.lean"], "C05": ["LinearODE.lean"], "C08": ["LinearODE.lean", "FlowOfEuler.lean"], "C06": ["Taylor.lean", "Normalize.lean"], "C12": ["ErrDyn.lean", "SO3Equiv.lean"],
                "C07": ["TrigMono.lean", "SO3Surj.lean"], "C03": ["RotVec.lean", "SO3Cover.lean", "SO3Surj.lean"], "C01": ["SO3Cover.lean", "SO3Surj.lean"]}
 
 
